@@ -753,6 +753,7 @@ _process_request_(struct qb_ipcs_connection *c, int32_t ms_timeout)
 {
 	int32_t res = 0;
 	ssize_t size;
+	int32_t hdr_size = 0;
 	struct qb_ipc_request_header *hdr;
 
 	if (c->service->funcs.peek && c->service->funcs.reclaim) {
@@ -764,6 +765,14 @@ _process_request_(struct qb_ipcs_connection *c, int32_t ms_timeout)
 					      hdr,
 					      c->request.max_msg_size,
 					      ms_timeout);
+	}
+	if (size >= (ssize_t)sizeof(*hdr)) {
+		/*
+		 * With shared memory the header lies in the ring, where the
+		 * client can change it at any time: the length is read once,
+		 * and what is checked below is what is passed on.
+		 */
+		hdr_size = qb_atomic_int_get(&hdr->size);
 	}
 	if (size < 0) {
 		if (size != -EAGAIN && size != -ETIMEDOUT) {
@@ -782,7 +791,7 @@ _process_request_(struct qb_ipcs_connection *c, int32_t ms_timeout)
 		goto cleanup;
 	} else if (size < (ssize_t)sizeof(*hdr) ||
 		   size > (ssize_t)c->request.max_msg_size ||
-		   hdr->size < (int32_t)sizeof(*hdr) || hdr->size > size) {
+		   hdr_size < (int32_t)sizeof(*hdr) || hdr_size > size) {
 		/* with shared memory "size" is what the peer wrote into the
 		 * ring as the chunk length: not more than was agreed on */
 		qb_util_log(LOG_DEBUG, "malformed request header (%s)",
@@ -791,7 +800,7 @@ _process_request_(struct qb_ipcs_connection *c, int32_t ms_timeout)
 		goto cleanup;
 	} else {
 		c->stats.requests++;
-		res = c->service->serv_fns.msg_process(c, hdr, hdr->size);
+		res = c->service->serv_fns.msg_process(c, hdr, hdr_size);
 		/* 0 == good, negative == backoff */
 		if (res < 0) {
 			res = -ENOBUFS;
